@@ -2201,13 +2201,14 @@ class Engine:
                 break
             if r == z3.sat:
                 r = z3.unknown       # refuted only with a subset of the axioms: not conclusive
-        if r == z3.unknown and not trivially_false and not getattr(self, "no_last_resort", False) and getattr(self, "_last_resort_used", 0) < 2:
-            self._last_resort_used = getattr(self, "_last_resort_used", 0) + 1          # at most two obligations per engine (function) get this treatment
+        if r == z3.unknown and not trivially_false and not getattr(self, "no_last_resort", False) and getattr(self, "_last_resort_used", 0) < 1:
+            self._last_resort_used = getattr(self, "_last_resort_used", 0) + 1          # only the first such obligation of an engine (function) gets this treatment
             # last resort before an obligation is reported as undischarged: the full axiom set again with six times the resource budget, a generous wall clock and other
             # random seeds (z3's quantifier instantiation is sensitive to both; a proof that exists in 2 s on an idle machine was once lost on a machine running three thorough
             # suites and a regression at the same time).  Only obligations that would otherwise fail get here, so a clean run pays nothing.
-            for seed_ in (0, 7):
-                for opts in ([o_ for o_ in self.solver_opts if "_timeout_ms" not in o_] or list(self.solver_opts[-1:]))[:2]:
+            full_ = [o_ for o_ in self.solver_opts if "_timeout_ms" not in o_] or list(self.solver_opts[-1:])
+            for seed_, opt_list in ((0, full_[:3]), (7, full_[:1])):
+                for opts in opt_list:
                     s = z3.Solver()
                     budget = int(self.timeout_ms)
                     s.set("rlimit", budget * self.RL_PER_MS * 6)
